@@ -3698,6 +3698,59 @@ Print Assumptions loopir_speriodogram_tie.
 THEOREMS['speriodogram'] = dict(proof=SPER_PROOF, theorems=SPER_THEOREMS, block=SPER_BLOCK)
 
 
+# ---------------------------------------------------------------- CORRELOGRAMPSD: translation + theorem by COMPOSITION of the CORRELATION theorem (T8)
+CGRAM_PROOF = 'Proofs/LoopIRCorrelogram.v'
+CGRAM_THEOREMS = ['loopir_CORRELOGRAMPSD_model', 'loopir_CORRELOGRAMPSD_correlation', 'loopir_CORRELOGRAMPSD_xcorr', 'loopir_CORRELOGRAMPSD_tie']
+CGRAM_BLOCK = """
+(* The program of CORRELOGRAMPSD regenerated on this run - CORRELATION embedded twice, the xcorr calls as oracle slots, the two slice stores, real(fft(psd))
+   (the DFT specification of Theory/Dft.v over the hidden twiddle parameter) - is, term for term, the one Proofs/LoopIRCorrelogram.v is about. *)
+Require Import Spectrum.Theory.Ops Spectrum.Theory.Vec Spectrum.Theory.Dft Spectrum.Model.Corr Spectrum.Model.Periodogram Spectrum.Model.LoopIRTie
+               Spectrum.Model.LoopIRVec Spectrum.Proofs.LoopIRLevinson Spectrum.Proofs.LoopIRCorrelogram.
+Lemma prog_CORRELOGRAMPSD_is_ref : prog_CORRELOGRAMPSD = prog_CORRELOGRAMPSD_ref.
+Proof. reflexivity. Qed.
+(* for EVERY twiddle family, ANY window samples with 2*lag+1 entries, ANY values of the rms slots, X / Y of any lengths and dtype tags, every lag (a natural
+   number), NFFT omitted / None / any natural number, norm and correlation_method omitted or ANY string - on the domain cg_dom (CORRELATION back end: two
+   float-tagged records are real-valued; xcorr back end: valid norm, equal lengths) - the run returns / raises exactly what Model.Periodogram.correlogram says
+   (correlogram_spec of Model/LoopIRVec.v) *)
+Theorem loopir_CORRELOGRAMPSD_model :
+  forall (F : Type) (OF : Ops F) (L : Laws OF) (feq : F -> F -> bool) (stop : Z -> F -> F -> bool) (tw : nat -> Z -> F)
+         (rx : bool) (x : list F) (y : option (bool * list F)) (lag : nat) (wfull : list F) (NFFT : option (option nat)) (nm : option (option string))
+         (meth : option string) (o1 o2 : F),
+  cg_dom rx x y lag wfull nm meth ->
+  run feq stop prog_CORRELOGRAMPSD (correlogram_args tw rx x y lag wfull NFFT nm meth o1 o2) = correlogram_spec tw x y lag wfull NFFT nm meth o1 o2.
+Proof. intros. rewrite prog_CORRELOGRAMPSD_is_ref. apply correlogram_ir_run; assumption. Qed.
+(* correlation_method='CORRELATION': the composition with the theorem of CORRELATION; unequal lengths included *)
+Theorem loopir_CORRELOGRAMPSD_correlation :
+  forall (F : Type) (OF : Ops F) (L : Laws OF) (feq : F -> F -> bool) (stop : Z -> F -> F -> bool) (tw : nat -> Z -> F)
+         (rx : bool) (x : list F) (y : option (bool * list F)) (lag : nat) (wfull : list F) (NFFT : option (option nat)) (nm : option (option string)) (o1 o2 : F),
+  length wfull = (2 * lag + 1)%nat -> (rx && ty_of rx y = true -> isrealL (yl_of x y) /\\ isrealL x) ->
+  run feq stop prog_CORRELOGRAMPSD (correlogram_args tw rx x y lag wfull NFFT nm (Some "CORRELATION"%string) o1 o2)
+  = correlogram_spec tw x y lag wfull NFFT nm (Some "CORRELATION"%string) o1 o2.
+Proof. intros. rewrite prog_CORRELOGRAMPSD_is_ref. apply correlogram_ir_run_correlation; assumption. Qed.
+(* correlation_method='xcorr' or omitted: the oracle slots hold the model's xcorr *)
+Theorem loopir_CORRELOGRAMPSD_xcorr :
+  forall (F : Type) (OF : Ops F) (L : Laws OF) (feq : F -> F -> bool) (stop : Z -> F -> F -> bool) (tw : nat -> Z -> F)
+         (rx : bool) (x : list F) (y : option (bool * list F)) (lag : nat) (wfull : list F) (NFFT : option (option nat)) (nm : option (option string))
+         (meth : option string) (o1 o2 : F),
+  meth = None \\/ meth = Some "xcorr"%string ->
+  length wfull = (2 * lag + 1)%nat -> norm_of nm <> None -> length (yl_of x y) = length x ->
+  run feq stop prog_CORRELOGRAMPSD (correlogram_args tw rx x y lag wfull NFFT nm meth o1 o2) = correlogram_spec tw x y lag wfull NFFT nm meth o1 o2.
+Proof. intros. rewrite prog_CORRELOGRAMPSD_is_ref. apply correlogram_ir_run_xcorr; assumption. Qed.
+Theorem loopir_CORRELOGRAMPSD_tie :
+  forall (F : Type) (OF : Ops F) (L : Laws OF) (feq : F -> F -> bool), (forall a, feq a a = true) ->
+  forall (tw : nat -> Z -> F) (rx : bool) (x : list F) (y : option (bool * list F)) (lag : nat) (wfull : list F) (NFFT : option (option nat))
+         (nm : option (option string)) (meth : option string) (o1 o2 : F),
+  cg_dom rx x y lag wfull nm meth ->
+  tie_correlogram feq tw prog_CORRELOGRAMPSD rx x y lag wfull NFFT nm meth o1 o2 = true.
+Proof. intros. rewrite prog_CORRELOGRAMPSD_is_ref. apply correlogram_ir_tie; assumption. Qed.
+Print Assumptions loopir_CORRELOGRAMPSD_model.
+Print Assumptions loopir_CORRELOGRAMPSD_correlation.
+Print Assumptions loopir_CORRELOGRAMPSD_xcorr.
+Print Assumptions loopir_CORRELOGRAMPSD_tie.
+"""
+THEOREMS['CORRELOGRAMPSD'] = dict(proof=CGRAM_PROOF, theorems=CGRAM_THEOREMS, block=CGRAM_BLOCK)
+
+
 def reference_text_in(proof, name):
     """the program text of <name> that <proof> was proved about (between its BEGIN/END GENERATED <name> markers)"""
     t = open(os.path.join(vlib.COQ, proof)).read()
